@@ -23,6 +23,7 @@ import (
 	"hash/fnv"
 	"runtime/debug"
 	"strings"
+	"time"
 )
 
 // Outcome of one execution.
@@ -548,3 +549,9 @@ func ThreadID() int {
 
 // Gosched replaces runtime.Gosched: a scheduling point.
 func Gosched() { Yield("gosched") }
+
+// Sleep replaces time.Sleep: a scheduling point at which the thread stays
+// enabled, whatever the duration (no clock is modelled). A loop that only
+// sleeps and retries is a spin loop: thread fairness lets the others run, and
+// if nobody ever ends it the execution runs into the step limit (livelock).
+func Sleep(d time.Duration) { Yield("sleep") }
